@@ -266,6 +266,12 @@ MAIN:
 		case syncup := <-d.synCh:
 			if syncup.Start {
 				log.Debugf("%s: sync start", d.Name())
+				// notifications received before the start must be written before the prune ID
+				// is created, otherwise they survive the prune at the end of the cycle
+				if err = sem.Acquire(ctx, d.config.Sync.WriteWorkers); err != nil {
+					return
+				}
+				sem.Release(d.config.Sync.WriteWorkers)
 				for {
 					pruneID, err = d.cacheClient.CreatePruneID(ctx, d.Name(), syncup.Force)
 					if err != nil {
@@ -278,6 +284,11 @@ MAIN:
 			}
 			if syncup.End && pruneID != "" {
 				log.Debugf("%s: sync end", d.Name())
+				// wait for the in-flight writes of the cycle before pruning
+				if err = sem.Acquire(ctx, d.config.Sync.WriteWorkers); err != nil {
+					return
+				}
+				sem.Release(d.config.Sync.WriteWorkers)
 				for {
 					err = d.cacheClient.ApplyPrune(ctx, d.Name(), pruneID)
 					if err != nil {
